@@ -84,6 +84,9 @@ func ScopeCorpus() []Prog {
 		add(fmt.Sprintf("through%d", k), "def f():\n"+assigns(ns, "    ")+"    def g():\n        def h():\n            return ("+strings.Join(ns, ", ")+")\n        return h\n    return g\nr = f()()()\n")
 		// class body using free variables and defining methods that use them
 		add(fmt.Sprintf("class%d", k), "def f():\n"+assigns(ns, "    ")+"    class C:\n        x = ("+strings.Join(ns, ", ")+")\n        def m(self):\n            return ("+strings.Join(rev, ", ")+")\n    return C\nr = f()().m()\n")
+		// class body that BINDS names which are also free in one of its methods and bound in the
+		// enclosing function (DEF_FREE_CLASS: the class passes the enclosing cells through)
+		add(fmt.Sprintf("classbind%d", k), "def f():\n"+assigns(ns, "    ")+"    class C:\n"+assigns(rev, "        ")+"        def m(self):\n            return ("+strings.Join(ns, ", ")+")\n    return C\nr = f()().m()\n")
 		// comprehension capturing
 		add(fmt.Sprintf("comp%d", k), "def f():\n"+assigns(ns, "    ")+"    return [("+strings.Join(ns, ", ")+", i) for i in range(2)]\nr = f()\n")
 		add(fmt.Sprintf("genexp%d", k), "def f():\n"+assigns(ns, "    ")+"    return list(("+strings.Join(rev, ", ")+", i) for i in range(2) if "+ns[0]+")\nr = f()\n")
